@@ -19,11 +19,14 @@ import (
 // ---------------------------------------------------------------- types
 
 type fnType struct {
-	k      string // int bool byte untyped elem slice string func view
+	k      string // int bool byte untyped elem slice string func view obj map struct
 	elem   *fnType
-	name   string // elem: the Go type-parameter name
+	name   string // elem: the Go type-parameter name; obj: the Coq name of the state type; struct: the Go type name
 	params []*fnType
 	res    []*fnType
+	key    *fnType       // map: the key type
+	decl   *ast.TypeSpec // struct: its declaration
+	fnames []string      // struct: the field names (their types are in res)
 }
 
 var (
@@ -49,8 +52,16 @@ func (t *fnType) coq() string {
 		return "list Z"
 	case "view":
 		return "view"
-	case "raw":
+	case "raw", "obj":
 		return t.name
+	case "map":
+		return "go_map " + parenT(t.key.coq()) + " " + parenT(t.elem.coq())
+	case "struct":
+		s := t.name
+		for _, p := range t.params {
+			s += " " + parenT(p.coq())
+		}
+		return s
 	case "slice":
 		if t.elem.k == "slice" {
 			return "list view"
@@ -73,6 +84,13 @@ func (t *fnType) coq() string {
 		return strings.Join(ps, " -> ")
 	}
 	return "?"
+}
+
+func parenT(s string) string {
+	if strings.ContainsAny(s, " ") {
+		return "(" + s + ")"
+	}
+	return s
 }
 
 func tupleType(ts []*fnType) string {
@@ -304,6 +322,9 @@ type fnFunc struct {
 	results   []*fnType
 	needZero  bool
 	zeroType  string
+	zeroTypes []string    // the type parameters whose zero value is an argument (zero_T), in signature order
+	recvObj   *ast.Object // a function literal translated as a method of the pointer it captures: that variable
+	litOf     string      // ... and the function it sits in
 	pure      bool
 	fuel      bool
 	extras    []*fnExtra // oracle / external function arguments, in order
@@ -328,6 +349,15 @@ type fnGen struct {
 	order   []*fnFunc
 	structs map[string]*ast.TypeSpec
 	consts  map[string]ast.Expr
+	ifaces  map[string]*ast.TypeSpec
+	// structs of the file used as values: emitted as Records, in declaration order
+	structOrder []string
+	usedStructs map[string]bool
+	recordText  map[string]string
+	// "Type.field" -> the receiver fields the methods of that object field may write (through
+	// callbacks installed elsewhere): spec "writes:Type.field:f1,f2"
+	writes  map[string][]string
+	foreign map[string][]*ast.File // parsed packages of the same module, by import path
 }
 
 type fnBind struct {
@@ -357,7 +387,10 @@ type fnCtx struct {
 	nloop    int
 	fix      []string // emitted Fixpoints, in emission order (inner loops first)
 	loops    []*loopCtx
-	zero     *fnVar
+	zero     *fnVar            // the zero value of fn.zeroType (the first of zeros)
+	zeros    map[string]*fnVar // type parameter -> its zero value argument
+	objs     map[string]*objInfo
+	body     *ast.BlockStmt // the body without the mutex prologue
 	tparams  map[string]bool
 	elemT    map[string]*fnType // type parameter name -> its representation
 	retNames []*fnVar           // named results
@@ -470,6 +503,26 @@ func (c *fnCtx) goType(e ast.Expr) *fnType {
 		if t, ok := c.elemT[v.Name]; ok {
 			return t
 		}
+		if t := c.structTypeOf(v); t != nil {
+			return t
+		}
+	case *ast.IndexExpr, *ast.IndexListExpr:
+		if t := c.structTypeOf(v); t != nil {
+			return t
+		}
+	case *ast.MapType:
+		kt, vt := c.goType(v.Key), c.goType(v.Value)
+		switch kt.k {
+		case "int", "byte", "bool", "string", "elem":
+		default:
+			c.lostAt(e, "map key type %s", src(v.Key))
+		}
+		switch vt.k {
+		case "int", "byte", "bool", "string", "elem", "struct":
+		default:
+			c.lostAt(e, "map value type %s (aliasing)", src(v.Value))
+		}
+		return &fnType{k: "map", key: kt, elem: vt}
 	case *ast.ArrayType:
 		if v.Len == nil {
 			return &fnType{k: "slice", elem: c.goType(v.Elt)}
@@ -534,13 +587,19 @@ func (c *fnCtx) typeParams(fl *ast.FieldList) {
 // ---------------------------------------------------------------- generator entry
 
 func fnGenerate(f *ast.File, specs []string) (string, []string) {
-	g := &fnGen{file: f, funcs: map[string]*fnFunc{}, byCall: map[string]*fnFunc{}, structs: map[string]*ast.TypeSpec{}, consts: pkgConsts(f)}
+	g := &fnGen{file: f, funcs: map[string]*fnFunc{}, byCall: map[string]*fnFunc{}, structs: map[string]*ast.TypeSpec{}, consts: pkgConsts(f),
+		ifaces: map[string]*ast.TypeSpec{}, usedStructs: map[string]bool{}, recordText: map[string]string{}, writes: map[string][]string{},
+		foreign: map[string][]*ast.File{}}
 	for _, d := range f.Decls {
 		if gd, ok := d.(*ast.GenDecl); ok && gd.Tok == token.TYPE {
 			for _, s := range gd.Specs {
 				ts := s.(*ast.TypeSpec)
 				if _, ok := ts.Type.(*ast.StructType); ok {
 					g.structs[ts.Name.Name] = ts
+					g.structOrder = append(g.structOrder, ts.Name.Name)
+				}
+				if _, ok := ts.Type.(*ast.InterfaceType); ok {
+					g.ifaces[ts.Name.Name] = ts
 				}
 			}
 		}
@@ -552,12 +611,24 @@ func fnGenerate(f *ast.File, specs []string) (string, []string) {
 			g.externs[strings.TrimPrefix(sp, "extern:")] = true
 			continue
 		}
-		fn := &fnFunc{spec: sp, name: sp}
-		if i := strings.IndexByte(sp, '.'); i >= 0 {
-			fn.recv, fn.name = sp[:i], sp[i+1:]
+		if strings.HasPrefix(sp, "writes:") {
+			// writes:Type.field:f1,f2 -- the methods of the object field may write these fields of the receiver
+			parts := strings.Split(sp, ":")
+			if len(parts) == 3 {
+				g.writes[parts[1]] = strings.Split(parts[2], ",")
+			}
+			continue
 		}
-		fn.decl = findFunc(f, sp)
-		if fn.decl != nil {
+		fn := &fnFunc{spec: sp, name: sp}
+		if strings.HasPrefix(sp, "lit:") {
+			g.literalFunc(fn)
+		} else {
+			if i := strings.IndexByte(sp, '.'); i >= 0 {
+				fn.recv, fn.name = sp[:i], sp[i+1:]
+			}
+			fn.decl = findFunc(f, sp)
+		}
+		if fn.decl != nil && fn.recvVar == "" {
 			fn.recvVar, _, _ = recvInfo(fn.decl)
 		}
 		g.order = append(g.order, fn)
@@ -588,6 +659,12 @@ func fnGenerate(f *ast.File, specs []string) (string, []string) {
 	}
 	for _, fn := range g.order {
 		emit(fn)
+	}
+	for _, n := range g.structOrder {
+		if g.usedStructs[n] {
+			b.WriteString(g.recordText[n])
+			b.WriteString("\n")
+		}
 	}
 	for _, t := range emitted {
 		b.WriteString(t)
@@ -632,7 +709,7 @@ func (g *fnGen) translate(fn *fnFunc, emit func(*fnFunc)) {
 	})
 	c := &fnCtx{g: g, fn: fn, vars: map[*ast.Object]*fnVar{}, fields: map[string]*fnVar{}, logs: map[string]*fnVar{},
 		cbs: map[string]*fnVar{}, used: map[string]bool{}, tparams: map[string]bool{}, elemT: map[string]*fnType{},
-		extras: map[string]*fnVar{}, fat: map[*fnVar]*fnVar{}}
+		extras: map[string]*fnVar{}, fat: map[*fnVar]*fnVar{}, zeros: map[string]*fnVar{}, objs: map[string]*objInfo{}}
 	c.function()
 	fn.state = 2
 }
